@@ -184,6 +184,8 @@ PROPS.update({
 PROPS['C17']['models'] = VTEXT_MODELS + [mc_syntax('alts', 'MC_Syntax_alts', 16)]
 PROPS['C17']['gens'] = PROPS['C17']['gens'] + [dict(scenario='rgarbage', n=dict(quick=3000, thorough=40000)), dict(scenario='rtext', n=dict(quick=1500, thorough=20000))]
 PROPS['C17']['events'] = ['vparse', 'rparse']
+PROPS['C17']['strip_vs'] = True      # error reporting does not need satisfies() probes
+PROPS['C17']['probe_cap'] = 8
 PROPS['C17']['rule'] += '; + range texts: `||` pairs and garbage tokens of MC_Syntax, seeded garbage-only texts (multi-line, multi-byte, numbers above the limit) whose every token is unparseable (NoValidRanges), seeded random range texts'
 
 PROPS['C07']['apalache'] = ['LemmaIntersect']
